@@ -4,7 +4,7 @@
 From TV Require Import Base Model.Wiring Model.Ticker Model.Component Model.Sim Model.SimTime Model.NSim Model.Interrupts Model.NNSim Model.HSim
   Proofs.WiringP Proofs.TickerP Proofs.SimP Proofs.NonInterfP Proofs.LatestP Proofs.FrameP Proofs.EqvP Proofs.ParDevP
   Proofs.ExtentP Proofs.Confluence2P Proofs.Confluence3P Proofs.ScheduleP Proofs.InlineLoopP Proofs.NScheduleP Proofs.NDetP Proofs.NDetXP
-  Proofs.SimNTP Proofs.MsgLevelP Proofs.MsgTreeP.
+  Proofs.SimNTP Proofs.MsgLevelP Proofs.MsgTreeP Oracle.SimCheck Oracle.HReplay.
 Open Scope Z_scope.
 
 Lemma split_at_spec {A} x (l : list (positive * A)) a v b : split_at x l = Some (a, v, b) -> l = a ++ (x, v) :: b.
@@ -128,4 +128,73 @@ Proof.
   destruct (htick_exec cfg devf pick n f (set_wake s_init top []) initial (map fst (l_order (level_of cfg top)))) as [[s1 o1]|] eqn:E; [|discriminate].
   intros H. exists s1, o1. split; [apply (htick_exec_sound pick n f _ _ _ _ _ E) | apply (hxrun_exec_sound pick n f script s1 o1 s' ob' H)].
 Qed.
+
+(* ---------- a recorded run of the real schedulers that replays (Oracle/HReplay.v) is a run of the step relation *)
+Section Replay.
+Variable f : nat.
+Variable time : Z.
+
+Definition Reach (k : hcfg) (s : sstate) (ob : list obs) (k' : hcfg) (s' : sstate) (ob' : list obs) : Prop :=
+  exists o, ob' = ob ++ o /\ Star (HS cfg devf (S f) top time []) k s k' s' o.
+
+Lemma Reach_refl k s ob : Reach k s ob k s ob.
+Proof. exists []. split; [rewrite app_nil_r; reflexivity | constructor]. Qed.
+
+Lemma Reach_trans k s ob k1 s1 ob1 k2 s2 ob2 : Reach k s ob k1 s1 ob1 -> Reach k1 s1 ob1 k2 s2 ob2 -> Reach k s ob k2 s2 ob2.
+Proof.
+  intros [o1 [E1 H1]] [o2 [E2 H2]]. exists (o1 ++ o2). split; [rewrite E2, E1, app_assoc; reflexivity|].
+  eapply Star_trans; eassumption.
+Qed.
+
+Lemma hs_do_sound m k s ob k' s' ob' : hs_do cfg devf f time m k s ob = Some (k', s', ob') -> Reach k s ob k' s' ob'.
+Proof.
+  unfold hs_do. destruct (hs_apply cfg devf (S f) top time [] m k s) as [[[k1 s1] o1]|] eqn:E; [|discriminate].
+  intros H. inversion H; subst. exists o1. split; [reflexivity|]. apply Star_one. eapply hs_apply_sound. exact E.
+Qed.
+
+Lemma hs_auto_sound : forall n k s ob k' s' ob', hs_auto cfg devf f time n k s ob = (k', s', ob') -> Reach k s ob k' s' ob'.
+Proof.
+  induction n as [|n IH]; intros k s ob k' s' ob' H; cbn [hs_auto] in H.
+  - inversion H; subst. apply Reach_refl.
+  - destruct (filter is_auto (hs_enabled cfg (S f) top k)) as [|m r]; [inversion H; subst; apply Reach_refl|].
+    destruct (hs_do cfg devf f time m k s ob) as [[[k1 s1] ob1]|] eqn:E; [|inversion H; subst; apply Reach_refl].
+    eapply Reach_trans; [apply (hs_do_sound _ _ _ _ _ _ _ E) | apply IH; exact H].
+Qed.
+
+Lemma hs_moves_sound : forall ms k s ob k' s' ob', hs_moves cfg devf f time ms k s ob = Some (k', s', ob') -> Reach k s ob k' s' ob'.
+Proof.
+  induction ms as [|m r IH]; intros k s ob k' s' ob' H; cbn [hs_moves] in H.
+  - inversion H; subst. apply Reach_refl.
+  - destruct (hs_do cfg devf f time m k s ob) as [[[k1 s1] ob1]|] eqn:E; [|discriminate].
+    eapply Reach_trans; [apply (hs_do_sound _ _ _ _ _ _ _ E) | apply IH; exact H].
+Qed.
+
+Lemma hs_replay_sound n : forall msgs k s ob k' s' ob',
+  hs_replay cfg devf f time n msgs k s ob = RR_ok k' s' ob' -> Reach k s ob k' s' ob'.
+Proof.
+  induction msgs as [|r rest IH]; intros k s ob k' s' ob' H; cbn [hs_replay] in H.
+  - inversion H; subst. apply Reach_refl.
+  - destruct (rmsg_matches time r k).
+    + destruct (hs_moves cfg devf f time (rmsg_moves r) k s ob) as [[[k1 s1] ob1]|] eqn:E; [|discriminate].
+      destruct (hs_auto cfg devf f time n k1 s1 ob1) as [[k2 s2] ob2] eqn:Ea.
+      eapply Reach_trans; [apply (hs_moves_sound _ _ _ _ _ _ _ E)|].
+      eapply Reach_trans; [apply (hs_auto_sound _ _ _ _ _ _ _ Ea) | apply IH; exact H].
+    + destruct (hs_moves cfg devf f time (rmsg_moves r) k s ob); discriminate.
+Qed.
+
+(* a real master tick whose deliveries replay is a tick of the interleaved semantics *)
+Theorem htick_replay_sound n s roots msgs k' s' ob :
+  htick_replay cfg devf f time n s roots msgs = RR_ok k' s' ob -> hmtick cfg devf f s time roots s' ob.
+Proof.
+  unfold htick_replay, hmtick.
+  destruct (start_tick (l_conns (level_of cfg top)) time roots) as [st0|] eqn:E0; [|discriminate].
+  destruct (schedule (l_conns (level_of cfg top)) (lcomps (level_of cfg top)) st0) as [[st1 acts]|] eqn:E1; [|discriminate].
+  destruct (hs_auto cfg devf f time n (HC st1 (map EDispatch acts) [] []) (log_tick s top time roots) []) as [[k1 s1] ob1] eqn:Ea.
+  destruct (hs_replay cfg devf f time n msgs k1 s1 ob1) as [k2 s2 ob2|code] eqn:Er; [|discriminate].
+  destruct k2 as [st tr pd kids]. destruct pd; [|discriminate]. destruct kids; [|discriminate]. destruct (todo st) eqn:Et; [|discriminate].
+  intros H. inversion H; subst.
+  pose proof (Reach_trans _ _ _ _ _ _ _ _ _ (hs_auto_sound _ _ _ _ _ _ _ Ea) (hs_replay_sound _ _ _ _ _ _ _ _ Er)) as [o [E HSt]].
+  cbn [app] in E. subst o. exists st0, st1, acts, st, tr. split; [reflexivity|]. split; [exact E1|]. split; [exact HSt | exact Et].
+Qed.
+End Replay.
 End HP.
